@@ -246,7 +246,20 @@ def check_case(case, rec):
                            f'reference has {len({frozenset(mp.values()) for mp in ref})} image sets')
         return
     # scope
-    scope = [n for n in t if rnd.random() < .6]
+    mode = rnd.random()
+    comps = t.connected_components
+    if mode < .45:
+        scope = [n for n in t if rnd.random() < .6]
+    elif mode < .75 and len(comps) > 1:
+        # whole components only, never the one holding the lowest atom number first (scope that skips leading components)
+        keep = [c for c in comps if rnd.random() < .5] or [comps[-1]]
+        scope = [n for c in keep for n in c]
+        rec.count('scope:whole-components')
+    elif mode < .9:
+        scope = cut(t, rnd, rnd.randint(1, max(1, len(t) // 2)))
+        rec.count('scope:connected-part')
+    else:
+        scope = [n for n in t if rnd.random() < .3]
     if scope:
         ok, gots = rec.guard('search-scope', lambda: list(p.get_mapping(t, automorphism_filter=False, searching_scope=scope)))
         if not ok:
